@@ -163,6 +163,8 @@ pub fn prog_pc<G: CurveTag>(prog: &Program) -> PedersenGens<G> {
 pub struct CountingRng {
     pub inner: ChaChaRng,
     pub bytes: usize,
+    /// a source that cannot deliver: `try_fill_bytes` errs, the infallible methods panic
+    pub failing: bool,
 }
 
 impl CountingRng {
@@ -170,24 +172,36 @@ impl CountingRng {
         let mut s = [0u8; 32];
         s[..8].copy_from_slice(&seed.to_le_bytes());
         s[31] = domain;
-        CountingRng { inner: ChaChaRng::from_seed(s), bytes: 0 }
+        CountingRng { inner: ChaChaRng::from_seed(s), bytes: 0, failing: false }
     }
 }
 
 impl RngCore for CountingRng {
     fn next_u32(&mut self) -> u32 {
+        if self.failing {
+            panic!("external RNG failure");
+        }
         self.bytes += 4;
         self.inner.next_u32()
     }
     fn next_u64(&mut self) -> u64 {
+        if self.failing {
+            panic!("external RNG failure");
+        }
         self.bytes += 8;
         self.inner.next_u64()
     }
     fn fill_bytes(&mut self, dest: &mut [u8]) {
+        if self.failing {
+            panic!("external RNG failure");
+        }
         self.bytes += dest.len();
         self.inner.fill_bytes(dest)
     }
     fn try_fill_bytes(&mut self, dest: &mut [u8]) -> Result<(), rand_core::Error> {
+        if self.failing {
+            return Err(rand_core::Error::from(core::num::NonZeroU32::new(rand_core::Error::CUSTOM_START + 7).unwrap()));
+        }
         self.fill_bytes(dest);
         Ok(())
     }
@@ -477,6 +491,10 @@ pub struct ProveOpts<G: AffineRepr> {
     pub direct_vars: bool,
     /// make the k-th allocation call without an assignment
     pub missing_at: Option<usize>,
+    /// continue on this transcript instead of creating a fresh one (chained proofs)
+    pub start: Option<Transcript>,
+    /// the caller's RNG cannot deliver randomness
+    pub failing_rng: bool,
 }
 
 pub struct ProveOut<G: AffineRepr> {
@@ -495,6 +513,8 @@ pub struct ProveOut<G: AffineRepr> {
     pub script: Option<instr::ScriptStatus>,
     pub cap: usize,
     pub missing_result: Option<Result<(), R1CSError>>,
+    /// the transcript after proving (for chaining)
+    pub end: Option<Transcript>,
 }
 
 impl<G: AffineRepr> ProveOut<G> {
@@ -518,7 +538,17 @@ pub fn run_prover<G: CurveTag>(prog: &Program, opts: &ProveOpts<G>) -> ProveOut<
     };
     ctx.missing_at.set(opts.missing_at);
     let mut rng = CountingRng::new(opts.seed.unwrap_or(prog.seed), 1);
-    let mut t = make_transcript(prog);
+    rng.failing = opts.failing_rng;
+    let mut t = match &opts.start {
+        Some(s) => {
+            let mut t = s.clone();
+            for (l, b) in &prog.pre {
+                t.append_message(ULABELS[*l as usize], b);
+            }
+            t
+        }
+        None => make_transcript(prog),
+    };
     let main_id = t.instr_id();
     if opts.record {
         instr::start();
@@ -534,7 +564,7 @@ pub fn run_prover<G: CurveTag>(prog: &Program, opts: &ProveOpts<G>) -> ProveOut<
             }
             let r = p.prove_and_return_transcript(&mut rng, &gens);
             let st = instr::clear_script();
-            (r.map(|(pf, mut tt)| (pf, next_challenge(&mut tt))), st)
+            (r.map(|(pf, tt)| { let end = tt.clone(); let mut tt = tt; (pf, next_challenge(&mut tt), end) }), st)
         } else {
             let r = {
                 let mut p = Prover::new(&pc, &mut t);
@@ -549,8 +579,9 @@ pub fn run_prover<G: CurveTag>(prog: &Program, opts: &ProveOpts<G>) -> ProveOut<
             let st = instr::clear_script();
             match r {
                 Ok((pf, tt)) => {
+                    let end = tt.clone();
                     let nc = next_challenge(tt);
-                    (Ok((pf, nc)), st)
+                    (Ok((pf, nc, end)), st)
                 }
                 Err(e) => (Err(e), st),
             }
@@ -574,6 +605,7 @@ pub fn run_prover<G: CurveTag>(prog: &Program, opts: &ProveOpts<G>) -> ProveOut<
         script: None,
         cap,
         missing_result: ctx.missing_result.borrow().clone(),
+        end: None,
     };
     match res {
         Err(p) => out.panic = Some(p),
@@ -581,7 +613,8 @@ pub fn run_prover<G: CurveTag>(prog: &Program, opts: &ProveOpts<G>) -> ProveOut<
             out.err = Some(e);
             out.script = st;
         }
-        Ok((Ok((pf, nc)), st)) => {
+        Ok((Ok((pf, nc, end)), st)) => {
+            out.end = Some(end);
             out.bytes = pf.to_bytes().ok();
             out.proof = Some(pf);
             out.next_challenge = Some(nc);
@@ -599,11 +632,12 @@ pub struct VerifyOpts<G: AffineRepr> {
     pub record: bool,
     pub cap: Option<usize>,
     pub pc_gens: Option<PedersenGens<G>>,
+    pub start: Option<Transcript>,
 }
 
 impl<G: AffineRepr> Default for VerifyOpts<G> {
     fn default() -> Self {
-        VerifyOpts { record: false, cap: None, pc_gens: None }
+        VerifyOpts { record: false, cap: None, pc_gens: None, start: None }
     }
 }
 
@@ -617,6 +651,7 @@ pub struct VerifyOut<G: AffineRepr> {
     pub main_id: u64,
     pub next_challenge: Option<[u8; 32]>,
     pub cap: usize,
+    pub end: Option<Transcript>,
 }
 
 impl<G: AffineRepr> VerifyOut<G> {
@@ -645,7 +680,16 @@ pub fn run_verifier<G: CurveTag>(
     let gens = bp_gens_mode::<G>(cap, prog.party_cap as usize, prog.gens.wrapping_add(1));
     let pc = opts.pc_gens.unwrap_or_else(|| prog_pc::<G>(prog));
     let ctx = Ctx::<G>::new(false, commitments.to_vec());
-    let mut t = make_transcript(prog);
+    let mut t = match &opts.start {
+        Some(s) => {
+            let mut t = s.clone();
+            for (l, b) in &prog.pre {
+                t.append_message(ULABELS[*l as usize], b);
+            }
+            t
+        }
+        None => make_transcript(prog),
+    };
     let main_id = t.instr_id();
     if opts.record {
         instr::start();
@@ -654,14 +698,14 @@ pub fn run_verifier<G: CurveTag>(
         if prog.owned {
             let mut v = Verifier::<G, Transcript>::new(t);
             run_phase1(&mut v, &prog.ops, &ctx).expect("verifier-side construction never fails");
-            v.verify_and_return_transcript(proof, &pc, &gens).map(|mut tt| next_challenge(&mut tt))
+            v.verify_and_return_transcript(proof, &pc, &gens).map(|tt| { let end = tt.clone(); let mut tt = tt; (next_challenge(&mut tt), end) })
         } else {
             let r = {
                 let mut v = Verifier::<G, &mut Transcript>::new(&mut t);
                 run_phase1(&mut v, &prog.ops, &ctx).expect("verifier-side construction never fails");
                 v.verify_and_return_transcript(proof, &pc, &gens)
             };
-            r.map(|tt| next_challenge(tt))
+            r.map(|tt| { let end = tt.clone(); (next_challenge(tt), end) })
         }
     });
     let log = if opts.record { instr::take() } else { vec![] };
@@ -676,12 +720,14 @@ pub fn run_verifier<G: CurveTag>(
         main_id,
         next_challenge: None,
         cap,
+        end: None,
     };
     match res {
         Err(p) => out.panic = Some(p),
-        Ok(Ok(nc)) => {
+        Ok(Ok((nc, end))) => {
             out.result = Some(Ok(()));
             out.next_challenge = Some(nc);
+            out.end = Some(end);
         }
         Ok(Err(e)) => out.result = Some(Err(e)),
     }
